@@ -53,6 +53,7 @@ package balanced
 import (
 	"errors"
 
+	dag "github.com/ipfs/boxo/ipld/merkledag"
 	ft "github.com/ipfs/boxo/ipld/unixfs"
 	h "github.com/ipfs/boxo/ipld/unixfs/importer/helpers"
 	ipld "github.com/ipfs/go-ipld-format"
@@ -146,6 +147,22 @@ func Layout(db *h.DagBuilderHelper) (ipld.Node, error) {
 	}
 
 	if db.HasFileAttributes() {
+		if _, ok := root.(*dag.ProtoNode); !ok {
+			// A single raw leaf (RawLeaves and at most one chunk of data)
+			// cannot carry the mode/mtime: give it a UnixFS file node as
+			// parent, which is a balanced DAG of depth 1.
+			size, err := root.Size()
+			if err != nil {
+				return nil, err
+			}
+			parent := db.NewFSNodeOverDag(ft.TFile)
+			if err = parent.AddChild(root, size, db); err != nil {
+				return nil, err
+			}
+			if root, err = parent.Commit(); err != nil {
+				return nil, err
+			}
+		}
 		err = db.SetFileAttributes(root)
 		if err != nil {
 			return nil, err
